@@ -241,6 +241,23 @@ func uriAccepts(s string) Verdict {
 	if k := strings.IndexAny(rest, "/?#"); k >= 0 {
 		host = rest[:k]
 	}
+	// authority = [userinfo@]hostname[:port]; a URI without a host NAME is in the same class as
+	// "http://" (rejected by the pinned tests): an authority holding only userinfo and/or a port
+	if k := strings.LastIndex(host, "@"); k >= 0 && !strings.ContainsAny(host[:k], "[]") {
+		host = host[k+1:]
+	}
+	if k := strings.LastIndex(host, ":"); k >= 0 && !strings.Contains(host, "]") {
+		port := host[k+1:]
+		digits := true
+		for j := 0; j < len(port); j++ {
+			if port[j] < '0' || port[j] > '9' {
+				digits = false
+			}
+		}
+		if digits && len(port) <= 5 {
+			host = host[:k]
+		}
+	}
 	if host == "" {
 		return Reject
 	}
